@@ -252,6 +252,8 @@ def gen_model(rng, depth=0, prop=False):
                 rules = [('enum', ('l', [('s', v), ('s', '"x"'), ('s', 'null')][:rng.randint(1, 3)]))]
             elif c < 0.75:
                 alts = [('o', [('type', ('s', '"integer"')), ('min', ('s', '-100'))]), ('s', '"string"'), ('o', [('type', ('s', '"@t"'))])][:rng.randint(2, 3)]
+                if rng.random() < 0.4:      # a string format as a rule-set (the conversions rename some of them - in their own copy)
+                    alts.insert(rng.randrange(len(alts) + 1), ('o', [('type', ('s', rng.choice(['"datetime"', '"email"', '"date"', '"uri"', '"uuid"'])))]))
                 if rng.random() < 0.4:      # an enum inside a rule-set: its name may be quoted and padded like every rule name
                     alts.insert(rng.randrange(len(alts) + 1), ('o', [('type', ('s', '"enum"')), ('enum', ('l', [('s', v), ('s', '"x"')]))]))
                 rules = [('or', ('l', alts))]
@@ -362,9 +364,12 @@ class Prop:
     def run_impl(self, lines):
         texts = [l.split(' ')[1] for l in lines]
         res = vf.run_impl(['proj ast %s %s' % (t, tspec()) for t in texts])
+        late = vf.run_impl(['proj astlate %s %s' % (t, tspec()) for t in texts])
         out = []
-        for r in res:
-            if re.match(r'^[0-9a-f]+$', r):
+        for r, r2 in zip(res, late):
+            if r2 != r and re.match(r'^[0-9a-f]+$', r):
+                out.append('LATE ' + r2[:200])
+            elif re.match(r'^[0-9a-f]+$', r):
                 try:
                     out.append('ok ast=' + norm_allof(a_node(json.loads(bytes.fromhex(r).decode('utf-8', 'surrogatepass')))))
                 except Exception as e:
@@ -385,6 +390,8 @@ class Prop:
     def oracle(self, case, out):
         if 'panic' in out or 'TOOLCRASH' in out:
             return 'crash: ' + out[:160]
+        if out.startswith('LATE '):
+            return 'GetAST() asked after Check/Example/OpenAPI/UsedUserTypes reports something else than asked first: ' + out[5:125]
         m = self.models.get(case.line)
         if m is None:
             return None
